@@ -319,6 +319,12 @@ class Path:
         self.pc.append(cond)
         self._feas_add(cond)
 
+    def known(self, cond) -> bool:
+        """cond is implied by the (quantifier-free part of the) path condition"""
+        if z3.is_true(z3.simplify(cond)):
+            return True
+        return self.solver.check(z3.Not(cond)) == z3.unsat
+
     def feasible(self, cond) -> bool:
         r = self.solver.check(cond)
         return r != z3.unsat
@@ -893,8 +899,8 @@ class Interp:
             self.havoc_var(name, f'L{ordinal}')
         for clause in inv:
             self.p.assume(self.spec_eval(clause))
+        m0 = self.spec_int(dec) if dec else None
         if self.test(s.test):
-            m0 = self.spec_int(dec) if dec else None
             try:
                 self.block(s.body)
             except Cont:
@@ -1727,12 +1733,18 @@ class Interp:
                 xi = ln + x
             else:
                 xi = self.as_int(x, n)
-                xi = z3.If(xi < 0, ln + xi, xi)
-            return z3.If(xi < 0, 0, z3.If(xi > ln, ln, xi))
+                if not self.p.known(xi >= 0):
+                    xi = z3.If(xi < 0, ln + xi, xi)
+            if not self.p.known(xi >= 0):
+                xi = z3.If(xi < 0, 0, xi)
+            if not self.p.known(xi <= ln):
+                xi = z3.If(xi > ln, ln, xi)
+            return xi
 
         lo = clamp(sl.lower, z3.IntVal(0))
         hi = clamp(sl.upper, ln)
-        hi = z3.If(hi < lo, lo, hi)
+        if not self.p.known(hi >= lo):
+            hi = z3.If(hi < lo, lo, hi)
         return z3.simplify(lo), z3.simplify(hi)
 
     def setitem(self, pl, idx, v, n):
